@@ -226,3 +226,11 @@ mod tests {
     #[derive(Component, Deserialize, Serialize)]
     struct ComponentB;
 }
+
+#[cfg(replicon_verif)]
+impl FnsId {
+    /// Returns the underlying index (registration order).
+    pub fn verif_index(&self) -> usize {
+        self.0
+    }
+}
